@@ -870,6 +870,7 @@ WORKLOADS: dict[str, Callable[[], Workflow]] = {
     "disc2": lambda: wl_join(JoinType.DISCRIMINATOR, 2),
     "nofm23": lambda: wl_join(JoinType.N_OF_M, 3, 2),
     "poll2": lambda: wl_poll(2),
+    "transient_always": lambda: wl_transient(13),
     "transient2": lambda: wl_transient(2),
     "transient2ctx": lambda: wl_transient(2, with_ctx=True),
     "selfloop2": lambda: wl_selfloop(2),
